@@ -257,6 +257,50 @@ def anfWith [Kids] (fuel : Nat) (x : Nat) : Option (List Nat) :=
     | none => none
     | some env => some (env.erase x ++ [x])          -- `env.move_to_end(x)`
 
+/-! #### How the wait count and the parent lists are built (regenerated from source: Gen/C03AnfSource)
+
+  `interpreter.anf` as written counts one wait per child OCCURRENCE (`children_counts[h] += 1` inside the
+  `for c in children(h)` loop) and records the parent once per occurrence
+  (`child_to_parents[c].append(h)` in the same loop); the emission loop decrements once per recorded
+  entry.  `visit` above is exactly that.  The variant below is what a "count the DISTINCT children"
+  rewrite computes (`children_counts[h] = len(set(children))`) with the parent lists unchanged. -/
+
+inductive CountRule where
+  | perOccurrence      -- `children_counts[h] += 1` for every non-atom child visited
+  | perDistinct        -- `children_counts[h] = len(set(...))`
+  | unknown
+  deriving DecidableEq, Repr
+
+structure AnfSource where
+  countRule : CountRule          -- how `children_counts[h]` is initialised
+  parentRule : CountRule         -- how `child_to_parents[c]` is extended (per occurrence / once per distinct child)
+  decrementPerEntry : Bool       -- `for parent in child_to_parents[h]: children_counts[parent] -= 1`
+  leafTestZero : Bool            -- `if children_counts[h] == 0: leaves.append(h)` in both loops
+  countStmt : String
+  parentStmt : String
+  deriving Repr
+
+/-- First phase with the set-based wait count (parent lists still one entry per occurrence). -/
+def bfsSet [Kids] : Nat → Bfs → Option Bfs
+  | 0, _ => none
+  | fuel + 1, s =>
+    match s.stack with
+    | [] => some s
+    | h :: rest =>
+      let s1 := visit h (children h) { s with stack := rest }
+      let distinct : Int := ((children h).eraseDups.length : Nat)
+      let s1' := if (children h).isEmpty then s1 else { s1 with counts := dSet s1.counts h distinct }
+      let s2 := if (children h).isEmpty then { s1' with leaves := s1'.leaves ++ [h] } else s1'
+      bfsSet fuel s2
+
+def anfSetWith [Kids] (fuel : Nat) (x : Nat) : Option (List Nat) :=
+  match bfsSet fuel ⟨[x], [], [], []⟩ with
+  | none => none
+  | some s =>
+    match kahn s.c2p fuel s.leaves s.counts [x] with
+    | none => none
+    | some env => some (env.erase x ++ [x])
+
 /-- Every child of every element occurs strictly earlier. -/
 def Topological [Kids] (ord : List Nat) : Prop :=
   ∀ pre n post, ord = pre ++ n :: post → ∀ c ∈ children n, c ∈ pre
